@@ -518,6 +518,24 @@ theorem scopeOf_err (cat : Cat) (wenv rels : Scope) : ∀ (l : List FromTable) (
       | error e' => simp [hb] at h; rw [← h]; exact scopeOf_err cat wenv rels r e' hb
       | ok v => simp [hb, pure, Except.pure] at h
 
+/-- every FROM / JOIN item is referred to by its own table name: the table-name dictionary maps each name to a table of that name -/
+theorem tnOf_plain : ∀ (fts : List FromTable), fts.all plainKey = true → ∀ p ∈ tnOf fts, p.2.2 = p.1
+  | [], _, p, h => by simp [tnOf] at h
+  | .mk (.table s n) (some a) :: r, hall, p, h => by simp [plainKey] at hall
+  | .mk (.table s n) none :: r, hall, p, h => by
+    simp only [List.all_cons, Bool.and_eq_true] at hall
+    simp only [tnOf, List.mem_cons] at h
+    rcases h with e | e
+    · subst e; rfl
+    · exact tnOf_plain r hall.2 p e
+  | .mk (.sub q) none :: r, hall, p, h => by simp [plainKey] at hall
+  | .mk (.sub q) (some a) :: r, hall, p, h => by
+    simp only [List.all_cons, Bool.and_eq_true] at hall
+    simp only [tnOf, List.mem_cons] at h
+    rcases h with e | e
+    · subst e; rfl
+    · exact tnOf_plain r hall.2 p e
+
 theorem pq_step (cat : Cat) (f : Nat) (hwi : PW cat f) (hsi : PS cat f) : PQ cat (f + 1) := by
   intro q wenv wn st hk hn hw hr hc hcb he
   simp only [flowQ]
@@ -603,7 +621,7 @@ theorem pq_step (cat : Cat) (f : Nat) (hwi : PW cat f) (hsi : PS cat f) : PQ cat
                 have f1 := fr1 m (fun hb => hmb (by simp [hb]))
                 have f2 := fr2 m (fun hb => hmb (by simp [hb]))
                 exact ⟨by rw [f2.1, f1.1]; exact hcm.1, by rw [f2.2, f1.2]; exact hcm.2⟩
-            have hlvl := level_generic hres q st2 (Same.refl st2)
+            have hlvl := level_generic hres q (fun hall => tnOf_plain fts (by rw [← hfts]; exact hall)) st2 (Same.refl st2)
             have hmodel : selectLineage cat (f + 1) q st =
                 (match (do let (cur, st3) ← currentLevel cat (tnOf fts) q st2; sourcesLoop cat (tnOf fts) [] cur st3) with
                  | .error err => .error err
